@@ -112,7 +112,13 @@ def run(ctx: Ctx) -> int:
     ctx.traces = len(probes)
     dump = os.path.join(ctx.work, "dump.json")
     with open(dump, "w") as f:
-        json.dump({"cat": cats, "tables": rows, "probes": probes}, f)
+        by_rows = [[] for _ in range(65536)]
+        for row in rows:
+            by_rows[row["code"]].append(row)
+        by_probes = [[] for _ in range(65536)]
+        for p in probes:
+            by_probes[p["code"]].append(p)
+        json.dump({"cat": cats, "rowsByCode": by_rows, "probesByCode": by_probes}, f)
     r = must_ok(run_tlc("Status", workdir=ctx.work, env={"DUMP": dump}, workers=8, cont=True, timeout=3000))
     ctx.add_tlc(r)
     if r.distinct != 65536:
